@@ -104,6 +104,45 @@ class FakeProc(object):
         return False
 
 
+OUTCOME_KEYS = ('target_state', 'exit_code', 'exception', 'exception_detail')
+
+
+class OwnedTask(dict):
+    '''task dict which records who writes the outcome fields'''
+
+    world = None
+
+    def __setitem__(self, k, v):
+        w = OwnedTask.world
+        if w is not None and k in OUTCOME_KEYS:
+            me = w.sched.me()
+            lock = getattr(w.c, '_check_lock', None)
+            w.writes.append((self.get('uid'), k, v, me.name if me else None,
+                             w.removed_by.get(self.get('uid')),
+                             getattr(lock, 'owner', None) is me))
+        dict.__setitem__(self, k, v)
+
+
+class TaskRegistry(dict):
+    '''the executor's `_tasks`: records which thread takes a task out'''
+
+    world = None
+
+    def _note(self, uid):
+        w = TaskRegistry.world
+        if w is not None and uid in self:
+            me = w.sched.me()
+            w.removed_by.setdefault(uid, me.name if me else None)
+
+    def __delitem__(self, uid):
+        self._note(uid)
+        dict.__delitem__(self, uid)
+
+    def pop(self, uid, *default):
+        self._note(uid)
+        return dict.pop(self, uid, *default)
+
+
 class FakeSP(object):
     STDOUT = -2
     PIPE   = -1
@@ -217,7 +256,10 @@ class World(object):
         c._session     = FakeSess()
         c._reg         = self.net.reg
         c._rm          = FakeRM(self, lm)
-        c._tasks       = dict()
+        c._tasks       = TaskRegistry()
+        self.writes     = list()
+        self.removed_by = dict()
+        OwnedTask.world = TaskRegistry.world = self
         c._check_lock  = rs.CLock(s, 'check')
         c._watch_queue = queue.Queue()
         c._to_tasks    = list()
@@ -227,7 +269,8 @@ class World(object):
         c.register_publisher(rpc.CONTROL_PUBSUB)
         c.register_publisher(rpc.AGENT_UNSCHEDULE_PUBSUB)
         c.register_input(rps.AGENT_EXECUTING_PENDING,
-                         rpc.AGENT_EXECUTING_QUEUE, c.work)
+                         rpc.AGENT_EXECUTING_QUEUE,
+                         lambda tasks: c.work([OwnedTask(t) for t in tasks]))
         c.register_output(rps.AGENT_STAGING_OUTPUT_PENDING,
                           rpc.AGENT_STAGING_OUTPUT_QUEUE)
 
@@ -409,6 +452,21 @@ def judge(part, w):
             viol('C07', 'thread-died', t.name,
                  '%s:%s' % (kind, type(t.exc).__name__),
                  'thread %s died with %r' % (t.name, t.exc))
+
+    # the watcher decides a task's outcome only once it has taken the task out
+    # of the registry itself (under the lock it shares with the cancel path):
+    # an outcome written for a task which another thread took over, or which
+    # nobody has taken yet, races with that thread's own verdict
+    for uid, key, val, who, remover, locked in w.writes:
+        if who == 'watcher' and remover != 'watcher' and \
+           not (remover is None and locked):
+            for prop in ('C07', 'C08', 'C05'):
+                viol(prop, 'outcome-written-unowned', 'Popen._check_running',
+                     '%s:%s' % (kind, key),
+                     'watcher sets %s=%r on %s, which %s'
+                     % (key, val, uid, 'was taken over by %s' % remover
+                        if remover else 'is still registered'))
+            break
 
     # observation log per uid
     obs = {t['uid']: {'exec': 0, 'push': [], 'final': [], 'unsched': 0,
@@ -715,7 +773,8 @@ def run_exec(ctx, pid):
         chunks = [kids[k:k + per] for k in range(0, len(kids), per)]
         for ch in chunks:
             jobs.append((i, ch, cap if not ctx.quick
-                                else max(1, cap // len(chunks))))
+                                else max(1, _scns[i]['max_exec']
+                                            // len(chunks))))
     # big subtrees (early deviations) first
     jobs.sort(key=lambda j: -len(j[1][0]) if j[1] else 0)
     for res in seams.pmap(_job, jobs, ctx.workers):
